@@ -1,5 +1,6 @@
 import GinjaxVerif.Lemmas.C07Build
 import GinjaxVerif.Lemmas.C07Train
+import GinjaxVerif.Lemmas.C07Shift
 import GinjaxVerif.Properties.C08
 import GinjaxVerif.Properties.C09
 import Mathlib.Algebra.Order.Field.Rat
@@ -211,6 +212,107 @@ theorem trained_model_equivariant (S : SP d → Prop) (F : Fns R d) (hS : ConjEq
   rw [hp]; exact hwf
 
 end Trained
+
+/-! ### translations -/
+
+section Translations
+
+theorem srel_iff_equiv_roll (s : Pix d) (y' y : MI R d) : SRel s y' y ↔ MI.Equiv y' (roll s y) := by
+  have key : ∀ (e' e : Ty × Block R d),
+      (e'.1 = e.1 ∧ SBRel (shiftPix y.dims y.torus s) e.1 e'.2 e.2) ↔
+      (e'.1 = e.1 ∧ (toBlk e.1 e'.2).Equiv (toBlk e.1 (shiftBlock y.dims y.torus s e.2))) := by
+    intro e' e
+    constructor
+    · rintro ⟨hk, hC, hd, hkk, hv⟩
+      refine ⟨hk, hC, hd, hkk, ?_⟩
+      intro c hc yy hy n hn
+      exact hv c (by rw [← hC]; exact hc) yy (by rw [← hd]; exact hy) n (by rw [← hkk]; exact hn)
+    · rintro ⟨hk, hC, hd, hkk, hv⟩
+      refine ⟨hk, hC, hd, hkk, ?_⟩
+      intro c hc yy hy n hn
+      exact hv c (by rw [hC]; exact hc) yy (by rw [hd]; exact hy) n (by rw [hkk]; exact hn)
+  constructor
+  · rintro ⟨h1, h2, h3⟩
+    refine ⟨h1, h2, ?_⟩
+    show List.Forall₂ _ y'.blocks (List.map _ y.blocks)
+    rw [List.forall₂_map_right_iff]
+    exact List.Forall₂.imp (fun e' e h => (key e' e).1 h) h3
+  · rintro ⟨h1, h2, h3⟩
+    refine ⟨h1, h2, ?_⟩
+    have h3' : List.Forall₂ _ y'.blocks (List.map _ y.blocks) := h3
+    rw [List.forall₂_map_right_iff] at h3'
+    exact List.Forall₂.imp (fun e' e h => (key e' e).2 h) h3'
+
+variable [Field R] [LinearOrder R]
+
+/-- **translation clause, general form**: a network of stride-1 convolutions with odd filters and
+inferred padding, normalisations, nonlinearities and residual sums commutes with every cyclic
+translation along the toroidal axes (identity on the others) — every parameter value, any bank. -/
+theorem net_shift (F : Fns R d) (s : Pix d) (net : Net R d) (hok : ShiftOK net) (x : MI R d)
+    (hx : x.Consistent) (hN : ∀ j, 0 < x.dims j) (y : MI R d) (hy : eval F net x = some y) :
+    ∃ y', eval F net (roll s x) = some y' ∧ MI.Equiv y' (roll s y) := by
+  obtain ⟨⟨y', h1, h2⟩, _⟩ := eval_shift F s net x (roll s x) y hx hN (srel_roll s x) hok hy
+  exact ⟨y', h1, (srel_iff_equiv_roll s y' y).1 h2⟩
+
+/-- **`ResNet`s on toroidal inputs commute with every cyclic translation** (on inputs with some
+non-toroidal axes: with every translation along the toroidal ones) -/
+theorem resnet_shift (F : Fns R d) (θ : ParamFam R) (c : NetArgs R d) (h : NetShiftOK c) (s : Pix d)
+    (x : MI R d) (hx : x.Consistent) (hN : ∀ j, 0 < x.dims j) (y : MI R d)
+    (hy : eval F (mkResNet θ c) x = some y) :
+    ∃ y', eval F (mkResNet θ c) (roll s x) = some y' ∧ MI.Equiv y' (roll s y) :=
+  net_shift F s _ (shiftOK_mkResNet θ c h) x hx hN y hy
+
+/-- the same for the dilated ResNet (all filter dilations of the schedule) -/
+theorem dilresnet_shift (F : Fns R d) (θ : ParamFam R) (c : NetArgs R d) (h : NetShiftOK c) (s : Pix d)
+    (x : MI R d) (hx : x.Consistent) (hN : ∀ j, 0 < x.dims j) (y : MI R d)
+    (hy : eval F (mkDilResNet θ c) x = some y) :
+    ∃ y', eval F (mkDilResNet θ c) (roll s x) = some y' ∧ MI.Equiv y' (roll s y) :=
+  net_shift F s _ (shiftOK_mkDilResNet θ c h) x hx hN y hy
+
+/-- and for every `ConvBlock` with the inferred padding -/
+theorem convBlock_shift (F : Fns R d) (θ : ParamFam R) (id : List Nat) (a : BlockArgs R d)
+    (hpad : a.pad = .none) (hld : a.ld = 1) (hM : a.M % 2 = 1) (hn : KeysNodup a.outKeys) (s : Pix d)
+    (x : MI R d) (hx : x.Consistent) (hN : ∀ j, 0 < x.dims j) (y : MI R d)
+    (hy : eval F (mkConvBlock θ id a) x = some y) :
+    ∃ y', eval F (mkConvBlock θ id a) (roll s x) = some y' ∧ MI.Equiv y' (roll s y) :=
+  net_shift F s _ (shiftOK_mkConvBlock θ id a hpad hld hM hn) x hx hN y hy
+
+/-- the U-Net without down-sampling (`num_downsamples = 0`: total pooling factor 1) commutes with
+every cyclic translation: the proved part of `unet_shift_multiple_statement` -/
+theorem unet_shift_multiple_partial (F : Fns R d) (θ : ParamFam R) (c : NetArgs R d)
+    (h : NetShiftOK c) (h0 : c.numDown = 0) (s : Pix d) (x : MI R d) (hx : x.Consistent)
+    (hN : ∀ j, 0 < x.dims j) (y : MI R d) (hy : eval F (mkUNet θ c) x = some y) :
+    ∃ y', eval F (mkUNet θ c) (roll s x) = some y' ∧ MI.Equiv y' (roll s y) := by
+  refine net_shift F s _ ?_ x hx hN y hy
+  unfold mkUNet
+  rw [h0]
+  refine ⟨shiftOK_chain _ ?_, trivial, ⟨rfl, rfl, rfl, h.odd, h.outNodup⟩⟩
+  intro n hn
+  obtain ⟨j, _, rfl⟩ := List.mem_map.1 hn
+  exact shiftOK_mkConvBlock θ _ _ rfl rfl h.odd h.midNodup
+
+end Translations
+
+/-- **translation clause of the U-Net (full statement, NOT proved)**: on toroidal inputs whose extents
+are positive multiples of `2^num_downsamples`, the U-Net commutes with the cyclic translations by
+multiples of its total pooling factor `2^num_downsamples`, wherever it evaluates.
+
+What is missing for a proof by the same induction as `net_shift`: (1) a shift lemma for the
+lhs-dilated up-convolution — image dilation 2, zero padding `(1,1)`, filter side 2 (C06's
+`layer_shift` / `conv_shift` require `TorusAxis`: wrap padding and `ld = 1`; the zero padding of the
+up-path coincides with the interleaved zeros of the periodic dilated signal, which is why the clause
+holds, but that index identity is not proved); (2) the relational (extensional-input) forms of C08's
+`maxPool_roll` / `pool_shift_multiple` along the levels, with the translation halved at every
+level; (3) the (pointwise) shift lemma for `concat`.  Proved part: `unet_shift_multiple_partial`
+(`num_downsamples = 0`), `net_shift` for everything without pooling. -/
+def unet_shift_multiple_statement : Prop :=
+  ∀ (R : Type) [Field R] [LinearOrder R] (d : Nat) (F : Fns R d) (θ : ParamFam R) (c : NetArgs R d),
+    NetShiftOK c → c.upM = 2 →
+    ∀ (t : Pix d) (x : MI R d), x.Consistent → (∀ j, x.torus j = true) → (∀ j, 0 < x.dims j) →
+      (∀ j, 2 ^ c.numDown ∣ x.dims j) →
+      ∀ y, eval F (mkUNet θ c) x = some y →
+        ∃ y', eval F (mkUNet θ c) (roll (fun j => t j * (2 ^ c.numDown : Nat)) x) = some y' ∧
+          MI.Equiv y' (roll (fun j => t j * (2 ^ c.numDown : Nat)) y)
 
 /-- the plans of the constructors satisfy `PlanOK` / `WellFormedPlan` -/
 theorem planOK_of_wfSame [CommRing R] (g : SP d) (net : Net R d) (hnp : NoPool net)
